@@ -648,7 +648,7 @@ def v60(lines, lo, hi):
 def v61(lines, lo, hi):
     for i in range(lo, hi):
         l = lines[i]
-        if l.kind in ("include", "define"):
+        if l.kind in ("include", "define", "cond"):
             yield _with(lines, i, _mod(l, [SP()] + l.pieces)), i, l.kind
 
 
@@ -660,11 +660,11 @@ def v62(lines, lo, hi):
             yield _with(lines, i, _mod(l, l.pieces[:1] + [P("pind", " ")] + l.pieces[1:])), i, l.kind
 
 
-@op("V63", "PREPROC_BAD_INDENT", (".h",))
+@op("V63", "PREPROC_BAD_INDENT")
 def v63(lines, lo, hi):
     for i in range(lo, hi):
         l = lines[i]
-        if l.kind in ("include", "define") and l.pieces[1].tag == "pind":
+        if l.kind in ("include", "define", "cond") and l.pieces[1].tag == "pind":
             yield _with(lines, i, _mod(l, l.pieces[:1] + l.pieces[2:])), i, l.kind
 
 
